@@ -3,8 +3,8 @@
    _tumor_boost), skgenome/intersect.py into_ranges (outer mode, one value per
    range) and cnvlib/call.py rescale_baf.  Rows carry their pandas index label:
    tabio.read leaves labels 0..n-1, boolean filtering keeps the old labels, and
-   the TumorBoost result is a fresh Series labelled 0..m-1 that pandas aligns BY
-   LABEL when it is assigned back.  No proofs here. *)
+   the TumorBoost result is a Series carrying the same labels as the table it was
+   computed from.  No proofs here. *)
 From CNV Require Import Base.Prelude Base.Str Model.Vcf.
 
 (* ---- numeric helpers ---------------------------------------------------- *)
@@ -99,17 +99,13 @@ Definition set_freq (r : vrow) (f : xq) : vrow :=
                g_freq := f |};
      v_n := v_n r |}.
 
-(* frame["alt_freq"] = Series(values, index=0..m-1): the row labelled l receives
-   values[l] when 0 <= l < m and NaN otherwise *)
-Definition assign_aligned (rows : list lrow) (values : list xq) : list lrow :=
-  map (fun lr =>
-         let l := fst lr in
-         (l, set_freq (snd lr)
-               (if l <? 0 then XNaN else nth (Z.to_nat l) values XNaN)))
-      rows.
-
+(* varr["alt_freq"] = varr.tumor_boost()  /  add_columns(alt_freq=cnarr.tumor_boost()):
+   the boosted Series carries the row labels of the table it was computed from, so
+   the label-aligned assignment gives every row the value of ITS OWN frequencies,
+   whatever rows were dropped before (labels are unique: tabio.read leaves 0..n-1 and
+   filtering only removes some) *)
 Definition boost_assign (rows : list lrow) : list lrow :=
-  assign_aligned rows (map (fun lr => boost_row (snd lr)) rows).
+  map (fun lr => (fst lr, set_freq (snd lr) (boost_row (snd lr)))) rows.
 
 (* ---- load_het_snps ------------------------------------------------------- *)
 
@@ -143,18 +139,16 @@ Definition load_het_core (paired : bool) (zf : option Q) (boost : bool) (rows : 
   end.
 
 (* a variant table as the later stages see it *)
-Record htable := { ht_bare : bool; ht_paired : bool; ht_rows : list lrow }.
+Record htable := { ht_paired : bool; ht_rows : list lrow }.
 
 Definition load_het_snps (h : header) (recs : list vrec) (ssel nsel : sel)
     (min_depth : option Z) (zf : option Q) (boost : bool) : res htable :=
   match read_vcf h recs ssel nsel min_depth false VcfDefaults.het_skip_somatic with
   | Fail e => Fail e
   | Ok t =>
-      (* on a bare table (t_bare) there is no zygosity column: nothing is filtered,
-         and tumor_boost() raises ValueError like on any unpaired table *)
       match load_het_core (t_paired t) zf boost (t_rows t) with
       | Fail e => Fail e
-      | Ok rows => Ok {| ht_bare := t_bare t; ht_paired := t_paired t; ht_rows := rows |}
+      | Ok rows => Ok {| ht_paired := t_paired t; ht_rows := rows |}
       end
   end.
 
@@ -178,19 +172,42 @@ Definition majority_above (vals : list Q) : bool :=
 Definition direction (above_half : option bool) (vals : list Q) : bool :=
   match above_half with Some b => b | None => majority_above vals end.
 
-(* series2value of into_ranges with summarize = nanmedian o _mirrored_baf:
-   no hit -> the default (NaN); ONE hit -> that value as it is (summarize is not
-   called); otherwise the median of the mirrored non-NaN values *)
-Definition series2value (above_half : option bool) (hits : list xq) : xq :=
+(* _mirrored_baf on one cell; a non-finite frequency is outside the model (NaN) *)
+Definition mirror_x (above : bool) (v : xq) : xq :=
+  match v with Fin q => Fin (mirror above q) | _ => XNaN end.
+
+(* series2value of into_ranges with summary_func = np.nanmedian: no hit -> the default
+   (NaN); ONE hit -> that value as it is; otherwise the median of the non-NaN values *)
+Definition summary (hits : list xq) : xq :=
+  match hits with
+  | [] => XNaN
+  | [x] => x
+  | _ => match median (finite_of hits) with Some m => Fin m | None => XNaN end
+  end.
+
+(* series2value of into_ranges with summarize = nanmedian o _mirrored_baf(., None):
+   one hit is returned as it is (summarize is not called) -- which is that value
+   mirrored to its own side; otherwise the median of the non-NaN values mirrored in
+   the direction of their majority *)
+Definition summary_majority (hits : list xq) : xq :=
   match hits with
   | [] => XNaN
   | [x] => x
   | _ =>
       let fin := finite_of hits in
-      match median (map (mirror (direction above_half fin)) fin) with
+      match median (map (mirror (majority_above fin)) fin) with
       | Some m => Fin m
       | None => XNaN
       end
+  end.
+
+(* the value of one range from the frequencies of the variants it overlaps:
+   above_half given -> every frequency is mirrored to that side FIRST (also a single
+   one), then summarised; not given -> majority direction per range *)
+Definition series2value (above_half : option bool) (hits : list xq) : xq :=
+  match above_half with
+  | Some b => summary (map (mirror_x b) hits)
+  | None => summary_majority hits
   end.
 
 Definition grange := (string * Z * Z)%type.
@@ -203,6 +220,10 @@ Definition overlaps (rg : grange) (r : vrow) : bool :=
 Definition hits_of (rows : list lrow) (rg : grange) : list xq :=
   map (fun lr => g_freq (v_t (snd lr))) (filter (fun lr => overlaps rg (snd lr)) rows).
 
+(* cnarr.add_columns(alt_freq=_mirrored_baf(cnarr["alt_freq"], above_half)): element-wise *)
+Definition mirror_assign (above : bool) (rows : list lrow) : list lrow :=
+  map (fun lr => (fst lr, set_freq (snd lr) (mirror_x above (g_freq (v_t (snd lr)))))) rows.
+
 (* None = into_ranges returned `dest` itself (no range at all); an empty source
    gives the default (NaN) for every range, which is what the map yields too *)
 Definition baf_by_ranges (paired : bool) (rows : list lrow) (ranges : list grange)
@@ -211,21 +232,18 @@ Definition baf_by_ranges (paired : bool) (rows : list lrow) (ranges : list grang
   let src := if boost && paired then boost_assign het else het in
   match ranges with
   | [] => None
-  | _ => Some (map (fun rg => series2value above_half (hits_of src rg)) ranges)
+  | _ =>
+      match above_half with
+      | Some b => Some (map (fun rg => summary (hits_of (mirror_assign b src) rg)) ranges)
+      | None => Some (map (fun rg => summary_majority (hits_of src rg)) ranges)
+      end
   end.
 
-(* the method on a table: a bare table has no alt_freq column, and the NaN vector
-   built for that case is indexed by the (empty) variant index: ValueError unless
-   there is no range either *)
 Definition baf_by_ranges_t (t : htable) (ranges : list grange) (above_half : option bool)
-    (boost : bool) : res (option (list xq)) :=
-  if ht_bare t then match ranges with [] => Ok (Some []) | _ => Fail "ValueError" end
-  else Ok (baf_by_ranges (ht_paired t) (ht_rows t) ranges above_half boost).
+    (boost : bool) : option (list xq) :=
+  baf_by_ranges (ht_paired t) (ht_rows t) ranges above_half boost.
 
 (* VariantArray.mirrored_baf: positional result over all rows *)
-Definition mirror_x (above : bool) (v : xq) : xq :=
-  match v with Fin q => Fin (mirror above q) | _ => XNaN end.
-
 Definition mirrored_baf (paired : bool) (rows : list lrow) (above_half : option bool) (boost : bool)
   : list xq :=
   let vals := if boost && paired then map (fun lr => boost_row (snd lr)) rows
@@ -241,8 +259,8 @@ Definition rescale_x (purity : Q) (v : xq) : xq :=
   match v with Fin q => Fin (rescale_baf purity q) | o => o end.
 
 (* do_call: baf_by_ranges with the defaults, then `if purity and purity < 1.0` the rescaling *)
-Definition mirrored_baf_t (t : htable) (above_half : option bool) (boost : bool) : res (list xq) :=
-  if ht_bare t then Fail "KeyError" else Ok (mirrored_baf (ht_paired t) (ht_rows t) above_half boost).
+Definition mirrored_baf_t (t : htable) (above_half : option bool) (boost : bool) : list xq :=
+  mirrored_baf (ht_paired t) (ht_rows t) above_half boost.
 
 Definition call_baf (paired : bool) (rows : list lrow) (ranges : list grange) (purity : option Q)
   : option (list xq) :=
@@ -257,4 +275,26 @@ Definition call_baf (paired : bool) (rows : list lrow) (ranges : list grange) (p
           | None => Some b
           end
       end
+  end.
+
+(* ---- het_frac_by_ranges --------------------------------------------------------------------- *)
+
+(* into_ranges(ranges, "is_het", nan, np.nanmean) over the indicator column
+   (zygosity != 0.0) & (zygosity != 1.0) of the normal's (else the sample's) genotype:
+   no overlapping variant -> NaN; one -> its indicator; else the mean of the indicators *)
+Definition count_true (l : list bool) : Z := Z.of_nat (length (filter (fun b => b) l)).
+
+Definition het_frac_value (hits : list bool) : xq :=
+  match hits with
+  | [] => XNaN
+  | _ => Fin (qdiv (inject_Z (count_true hits)) (inject_Z (Z.of_nat (length hits))))
+  end.
+
+Definition het_flags (rows : list lrow) (rg : grange) : list bool :=
+  map (fun lr => is_het_z (germ_zyg (snd lr))) (filter (fun lr => overlaps rg (snd lr)) rows).
+
+Definition het_frac_by_ranges (rows : list lrow) (ranges : list grange) : option (list xq) :=
+  match ranges with
+  | [] => None
+  | _ => Some (map (fun rg => het_frac_value (het_flags rows rg)) ranges)
   end.
